@@ -3,7 +3,7 @@ import corelib
 
 TOKENS = ["key", "ekey", "str", "int", "nil", "err", "any", "attr", "attrs", "attrslice", "group", "egroup", "ngroup"]
 EPS = ["verb", "ctx", "LogAttrs", "Logit", "Println", "pkg", "pkg.ctx", "pkg.Println"]
-MSG = ["plain", "empty", "blank", "multi", "trailnl", "bytes"]
+MSG = ["plain", "empty", "blank", "none", "multi", "trailnl", "bytes"]
 OBS = []
 
 
